@@ -75,7 +75,7 @@ Theorem revindex_source_eq_model : forall k s, as_answer (run2 k s_revindex s []
 Proof. intros k s. unfold run2, s_revindex. cbn [m_query]. crunch. Qed.
 
 Theorem changed_source_eq_model : forall k s v,
-  let value := match v with Some c => [c] | None => match current s with Some x => [x] | None => [] end end in
+  let value := match v with Some c => c | None => match current s with Some x => [x] | None => [] end end in
   as_answer (run2 k s_changed s [("value", LTuple value)]) = m_query k s (QChanged v).
 Proof. intros k s v value. subst value. unfold run2, s_changed. cbn [m_query]. crunch; closes. Qed.
 
